@@ -1,9 +1,9 @@
 #!/usr/bin/env python3
 """Confirm a seeded change produced by an independent sub-agent and run the checks on it.
-usage: try_seed.py <prop> <agent-worktree> <n> [--all]
+usage: try_seed.py <prop> <agent-worktree> <n> [<store-as-number>]
 1. fresh scratch worktree of /repo HEAD; apply seed<n>.diff; build; run the existing suites (must pass)
 2. copy the demo test; run it with the change (must FAIL) and without (must PASS)
-3. apply the diff in /repo, run ./check.sh for the property (or all), restore /repo
+3. apply the diff to a scratch copy of /repo and run every quick check of the touched modules on it
 4. on confirmation store /verif/seeded/<prop>-<n>/ {patch.diff, demo, meta.json}"""
 import sys, os, subprocess, json, glob, shutil, re
 ENV=dict(os.environ, GOFLAGS='-mod=mod', GOPROXY='off', GOSUMDB='off', GOTOOLCHAIN='local', GOWORK='off')
@@ -11,7 +11,7 @@ def sh(cmd, cwd=None, timeout=1500):
     return subprocess.run(cmd, shell=True, cwd=cwd, env=ENV, capture_output=True, text=True, timeout=timeout)
 def main():
     prop, wt, n = sys.argv[1], sys.argv[2], sys.argv[3]
-    runall = '--all' in sys.argv
+    asn = sys.argv[4] if len(sys.argv)>4 and not sys.argv[4].startswith('--') else n
     diff=os.path.join(wt, f'seed{n}.diff')
     patch=open(diff).read()
     files=re.findall(r'^\+\+\+ b/(\S+)', patch, re.M)
@@ -22,7 +22,7 @@ def main():
         demos=[p for p in glob.glob(os.path.join(wt,'**','zz_seed_demo_test.go'), recursive=True)]
     assert len(demos)==1, demos
     demo=demos[0]; rel=os.path.relpath(demo, wt)
-    scratch=f'/tmp/ver-{prop}-{n}'
+    scratch=f'/tmp/ver-{prop}-{asn}'
     sh(f'git -C /repo worktree remove --force {scratch}'); shutil.rmtree(scratch, ignore_errors=True)
     r=sh(f'git -C /repo worktree add -q --detach {scratch} HEAD'); assert r.returncode==0, r.stderr
     res={'property':prop,'seed':n,'files':files,'demo':rel}
@@ -49,29 +49,32 @@ def main():
         sh(f'git -C /repo worktree remove --force {scratch}'); shutil.rmtree(scratch, ignore_errors=True)
     confirmed = all(res.get(f'suite_{m}_with_change')=='pass' for m in mods) and res['demo_with_change']=='fail' and res['demo_without_change']=='pass'
     res['confirmed']=confirmed
-    # run the checks on /repo with the change applied
-    assert sh('git -C /repo status --porcelain').stdout.strip()=='', 'repo not clean'
-    r=sh(f'git -C /repo apply {diff}'); assert r.returncode==0, r.stderr
+    # run all checks of the touched modules on a scratch copy of /repo with the change applied
+    sc=f'/tmp/ver-{prop}-{asn}-repo'; scv=sc+'.verif'
+    shutil.rmtree(sc, ignore_errors=True); shutil.rmtree(scv, ignore_errors=True)
     try:
-        props=[prop] if not runall else ['C%02d'%i for i in range(1,21)]
+        r=sh(f'rsync -a --exclude .git /repo/ {sc}/'); assert r.returncode==0, r.stderr
+        os.makedirs(scv); shutil.copy('/verif/known_findings.json', scv)
+        r=sh(f'git apply {diff}', cwd=sc); assert r.returncode==0, r.stderr
+        r=sh('go build -o bin/emucheck ./cmd/emucheck', cwd='/verif'); assert r.returncode==0, r.stderr
+        r=sh(f'/verif/bin/emucheck all -repo {sc} -verif {scv} -modules {",".join(mods)}')
+        allres=json.loads(r.stdout)
         checks={}
-        for p in props:
-            o=sh(f'/verif/check.sh {p} quick')
-            viol=[l.strip() for l in o.stdout.splitlines() if l.startswith('  ') and '[R' in l]
-            checks[p]={'exit':o.returncode,'violations':viol[:6]}
+        for p_,v in sorted(allres.items()):
+            if p_==prop or v['exit']!=0:
+                checks[p_]={'exit':v['exit'],'violations':[l for l in v['lines'] if '[R' in l or l.startswith('CHECK-BROKEN')][:6]}
         res['checks']=checks
     finally:
-        sh('git -C /repo reset -q --hard HEAD')
-    assert sh('git -C /repo status --porcelain').stdout.strip()=='', 'repo not restored'
+        shutil.rmtree(sc, ignore_errors=True); shutil.rmtree(scv, ignore_errors=True)
     res['detected_by_own_property']= res['checks'][prop]['exit']==1
     res['alarming_properties']=[p for p,c in res['checks'].items() if c['exit']!=0]
     if confirmed:
-        d=f'/verif/seeded/{prop}-{n}'; os.makedirs(d, exist_ok=True)
+        d=f'/verif/seeded/{prop}-{asn}'; os.makedirs(d, exist_ok=True)
         shutil.copy(diff, os.path.join(d,'patch.diff')); shutil.copy(demo, os.path.join(d, os.path.basename(rel)))
         rep=os.path.join(wt,'SEED_REPORT.md')
         if os.path.exists(rep): shutil.copy(rep, os.path.join(d,'SEED_REPORT.md'))
         meta={'property':prop,'source':'independent sub-agent (saw only the property text and its own scratch worktree)','files_changed':files,'demo':rel,
-              'needs_to_manifest':'see SEED_REPORT.md','what_i_ran':['existing suites of the touched modules with the change: pass','demo with the change: fail','demo without the change: pass',f'./check.sh {prop} quick on /repo with the patch applied'],
+              'needs_to_manifest':'see SEED_REPORT.md','what_i_ran':['existing suites of the touched modules with the change: pass','demo with the change: fail','demo without the change: pass','every quick check of the touched modules on a scratch copy of /repo with the patch applied (emucheck all)'],
               'result':res}
         json.dump(meta, open(os.path.join(d,'meta.json'),'w'), indent=1)
     print(json.dumps({k:v for k,v in res.items() if k not in('demo_with_change_tail',)}, indent=1))
